@@ -20,7 +20,12 @@ use std::collections::HashMap;
 #[cfg(feature = "test-util")]
 use std::marker::PhantomData;
 #[cfg(feature = "test-util")]
+#[cfg(not(metrique_verif))]
 use std::sync::{Arc, Mutex};
+// Verification hook: under `--cfg metrique_verif` the registry of runtime-scoped test sinks is guarded by
+// the simulator's mutex (lock/unlock become scheduling points; contention is decided by the simulator).
+#[cfg(all(feature = "test-util", metrique_verif))]
+use ::{detsim::sync::Mutex, std::sync::Arc};
 
 use crate::{
     EntrySink,
@@ -439,7 +444,12 @@ macro_rules! global_entry_sink {
 
             $crate::__test_util! {
                 use ::std::cell::RefCell;
+                #[cfg(not(metrique_verif))]
                 use ::std::sync::{Arc, Mutex};
+                #[cfg(metrique_verif)]
+                use ::std::sync::Arc;
+                #[cfg(metrique_verif)]
+                use $crate::__verif_sync::Mutex;
                 use ::std::collections::HashMap;
 
                 thread_local! {
